@@ -258,6 +258,12 @@ class IOWorker (object):
     Shut down socket
     """
     self._shutdown_send |= send
+    if self._shutdown_send and len(self.send_buf) == 0 and not self.closed:
+      # Nothing left to send -- _do_send won't get to it
+      try:
+        self.socket.shutdown(socket.SHUT_WR)
+      except socket.error:
+        pass
     #TODO: recv
 
   def __repr__ (self):
